@@ -53,9 +53,11 @@ class Undecided(Exception):
 # ------------------------------------------------------------------------------------------------
 # one unit: extract + verify
 # ------------------------------------------------------------------------------------------------
-def extract_unit(root, unit, workdir, canary=None, mutate=None):
+def extract_unit(root, unit, workdir, canary=None, flags_off=False):
     os.makedirs(workdir, exist_ok=True)
     tag = unit if canary is None else "%s.canary.%s" % (unit, re.sub(r"\W+", "_", canary))
+    if flags_off:
+        tag += ".flagsoff"
     # Verus takes the crate name from the file name
     out = os.path.join(workdir, re.sub(r"\W+", "_", tag) + ".rs")
     mapf = out[:-3] + ".map.json"
@@ -63,6 +65,8 @@ def extract_unit(root, unit, workdir, canary=None, mutate=None):
            "--repo", REPO, "--out", out, "--map", mapf, "--contracts", os.path.join(root, "contracts")]
     if canary:
         cmd += ["--canary", canary]
+    if flags_off:
+        cmd += ["--flags-off"]
     rc, so, se, dt = sh(cmd)
     if rc != 0:
         raise Undecided("extraction of unit %s failed (rc=%d): %s" % (unit, rc, (se or so).strip()))
@@ -196,8 +200,8 @@ def parse_verus(path, mapf, rc, so, se):
     return res
 
 
-def verify_unit(root, unit, workdir, rlimit, seed, canary=None, threads=8):
-    path, mapf = extract_unit(root, unit, workdir, canary=canary)
+def verify_unit(root, unit, workdir, rlimit, seed, canary=None, threads=8, flags_off=False):
+    path, mapf = extract_unit(root, unit, workdir, canary=canary, flags_off=flags_off)
     rc, so, se, dt, cmd = run_verus(path, rlimit, seed, threads=threads)
     r = parse_verus(path, mapf, rc, so, se)
     if r["status"] == "resource":
@@ -579,6 +583,39 @@ def check_property(root, pid, tier, seed):
     # unstable proofs (pass on one seed only) are reported, not alarmed
     unstable = [s for s in seeds_report if s["status"] != "ok"]
 
+    # C17 differential: an obligation that fails with arbitrary debug flags but is discharged when both flags are assumed off
+    # is a result that depends on print_debug_info / return_metadata
+    diff_report = []
+    for du in P.get("differential_flags", []):
+        try:
+            rn = verify_unit(root, du["unit"], os.path.join(work, "diff"), rlimit, seed)
+        except Undecided as e:
+            undecided.append("flag differential, unit %s: %s" % (du["unit"], e))
+            continue
+        cmds.append(rn.get("cmd", ""))
+        if rn["status"] == "undecided":
+            undecided.append("flag differential, unit %s: %s" % (du["unit"], rn["reason"]))
+            continue
+        total_ver += rn["verified"]
+        fails = [f for f in rn["failures"] if f.get("function") in du.get("scope", [])] if rn["status"] == "fail" else []
+        entry = {"unit": du["unit"], "scope": du.get("scope", []), "failed_with_arbitrary_flags": len(fails), "flag_dependent": 0}
+        if fails:
+            ro = verify_unit(root, du["unit"], os.path.join(work, "diff"), rlimit, seed, flags_off=True)
+            if ro["status"] == "undecided":
+                undecided.append("flag differential (flags off), unit %s: %s" % (du["unit"], ro["reason"]))
+            else:
+                key = lambda f: (f.get("function"), f.get("message"), f.get("unit_text"))
+                off = set(key(f) for f in ro["failures"]) if ro["status"] == "fail" else set()
+                for f in fails:
+                    if key(f) not in off:
+                        f = dict(f)
+                        f["unit"] = du["unit"]
+                        f["message"] = "result depends on a debug flag: this obligation fails for arbitrary print_debug_info / return_metadata and is discharged when both are off — " + f["message"]
+                        violations.append(f)
+                        total_err += 1
+                        entry["flag_dependent"] += 1
+        diff_report.append(entry)
+
     # Kani stand-ins
     kani_report = []
     if P.get("kani"):
@@ -639,6 +676,7 @@ def check_property(root, pid, tier, seed):
             "unstable": unstable,
             "unstable_obligations_discharged_under_another_seed": unstable_obl,
             "kani": kani_report,
+            "debug_flag_differential": diff_report,
             "repo_state_scan": scan,
             "assumption_lines": {k: len(v) for k, v in assumptions_found.items()},
             "not_decided": P.get("not_decided", []),
